@@ -89,7 +89,18 @@ NextOf(x, i) == X(x, (i % Len(x)) + 1)
 PrevOf(x, i) == X(x, ((i - 2) % Len(x)) + 1)
 AlgHi(x, i, r) == (X(x, i) + Align(NextOf(x, i), X(x, i), r)) \div 2
 AlgLo(x, i, r) == (Align(PrevOf(x, i), X(x, i), r) + X(x, i)) \div 2
+(* _periodic_overlap aligns the source interval [y0, y1] as a whole with the lower target bound
+   (the lower end is aligned, the upper end follows).  As found in the repository the two ends
+   were aligned separately (AlgOvAsFound), which tears apart an interval that straddles
+   x0 + period/2: AsFoundSound fails inside the documented domain (e.g. 3 source longitudes);
+   repaired, see known_findings.json. *)
 AlgOv(t, s, r) == LET x0 == AlgLo(cfg.tgt, t, r)
+                      x1 == AlgHi(cfg.tgt, t, r)
+                      y0 == Align(AlgLo(cfg.src, s, r), x0, r)
+                      y1 == AlgHi(cfg.src, s, r) + (y0 - AlgLo(cfg.src, s, r))
+                  IN  Max(Min(x1, y1) - Max(x0, y0), 0)
+AlgOvAsFound(t, s, r) ==
+                  LET x0 == AlgLo(cfg.tgt, t, r)
                       x1 == AlgHi(cfg.tgt, t, r)
                       y0 == Align(AlgLo(cfg.src, s, r), x0, r)
                       y1 == Align(AlgHi(cfg.src, s, r), x0, r)
@@ -186,8 +197,12 @@ Tiling == HasCells =>
 RowMeasure == HasOv => \A t \in 1..NT : RowSum(t) = tcell[t][2]
 ColMeasure == HasOv => \A s \in 1..NS : ColSum(s) = scell[s][2]
 (* the library's phase-alignment algorithm computes the geometric overlap *)
-AlgorithmSound == (HasOv /\ Safe) =>
+AlgorithmSound == HasOv =>
    \A t \in 1..NT : \A s \in 1..NS : \A r \in BOOLEAN : AlgOv(t, s, r) = ov[t][s]
+AsFoundSound == HasOv =>
+   \A t \in 1..NT : \A s \in 1..NS : \A r \in BOOLEAN : AlgOvAsFound(t, s, r) = ov[t][s]
+AsFoundSoundWhenSafe == (HasOv /\ Safe) =>
+   \A t \in 1..NT : \A s \in 1..NS : \A r \in BOOLEAN : AlgOvAsFound(t, s, r) = ov[t][s]
 NonNegative == HasW => \A t \in 1..NT : \A s \in 1..NS : RLe(Zero, w[t][s])
 RowsSumToOne == HasW => \A t \in 1..NT : RSum(w[t], 1, NS) = One
 ConstantsReproduced == HasW => \A t \in 1..NT : \A c \in {<<1, 1>>, <<-3, 2>>} :
